@@ -6,6 +6,8 @@ use crate::engine::Ctx;
 
 pub mod c01;
 pub mod c04;
+pub mod c11;
+pub mod c15;
 pub mod history;
 
 pub struct Meta {
@@ -20,29 +22,38 @@ pub struct Meta {
     pub workers: usize,
 }
 
-pub const ALL: [&str; 20] = [
-    "C01", "C02", "C03", "C04", "C05", "C06", "C07", "C08", "C09", "C10", "C11", "C12", "C13", "C14", "C15", "C16", "C17", "C18", "C19", "C20",
-];
+/// Modules with the uniform interface meta(tier) / run(ctx) / replay(ctx, path).
+macro_rules! simple_checks {
+    ($($id:literal => $m:ident),* $(,)?) => {
+        pub fn meta(id: &str, tier: &str) -> Option<Meta> {
+            match id {
+                "C01" | "C02" | "C04" | "C07" | "C08" | "C09" => Some(c01::meta(id, tier)),
+                $($id => Some($m::meta(tier)),)*
+                _ => None,
+            }
+        }
 
-pub fn meta(id: &str, tier: &str) -> Option<Meta> {
-    match id {
-        "C01" | "C02" | "C04" | "C07" | "C08" | "C09" => Some(c01::meta(id, tier)),
-        _ => None,
-    }
+        pub fn run(id: &str, ctx: &mut Ctx) {
+            match id {
+                "C01" | "C02" | "C04" | "C07" | "C08" | "C09" => c01::run(id, ctx),
+                $($id => $m::run(ctx),)*
+                _ => crate::engine::machinery("unknown property id"),
+            }
+        }
+
+        pub fn replay(id: &str, ctx: &mut Ctx, path: &[usize]) {
+            match id {
+                "C01" | "C02" | "C04" | "C07" | "C08" | "C09" => c01::replay(id, ctx, path),
+                $($id => $m::replay(ctx, path),)*
+                _ => crate::engine::machinery("replay not supported for this property"),
+            }
+        }
+    };
 }
 
-pub fn run(id: &str, ctx: &mut Ctx) {
-    match id {
-        "C01" | "C02" | "C04" | "C07" | "C08" | "C09" => c01::run(id, ctx),
-        _ => crate::engine::machinery("unknown property id"),
-    }
-}
-
-pub fn replay(id: &str, ctx: &mut Ctx, path: &[usize]) {
-    match id {
-        "C01" | "C02" | "C04" | "C07" | "C08" | "C09" => c01::replay(id, ctx, path),
-        _ => crate::engine::machinery("replay not supported for this property"),
-    }
+simple_checks! {
+    "C11" => c11,
+    "C15" => c15,
 }
 
 pub fn default_assumptions() -> Vec<String> {
